@@ -62,8 +62,9 @@ def check(ctx):
     ctx.inst('R1', ac, 'size=sum-of-fetch-sizes', len(szs) == 1 and len(loops) == 1 and szs[0] in list(walk_own(loops[0])) and isinstance(szs[0].op, ast.Add) and
              norm(szs[0].value) == 'LogTocElement.get_size_from_id(%s.fetch_as)' % norm(loops[0].target) and loops[0].body[0] is szs[0],
              'payload size is the sum over all variables of the fetch-type size')
+    looked_up = {'var'} | {norm(s_.targets[0]) for s_ in walk_own(ac.node) if isinstance(s_, ast.Assign) and isinstance(s_.targets[0], ast.Name) and 'get_element_by_complete_name' in norm(s_.value)}
     miss = [n for n in rej if n.ast.exc is not None and norm(n.ast.exc).startswith('KeyError') and
-            (fact_key('var', False) in g.fact_keys_at(n) or any('get_element_by_complete_name' in k[0] for k in g.fact_keys_at(n)))]
+            (any(fact_key(v_, False) in g.fact_keys_at(n) for v_ in looked_up) or any('get_element_by_complete_name' in k[0] for k in g.fact_keys_at(n)))]
     ctx.inst('R1', ac, 'unknown-variable-raises', len(miss) >= 2, 'a variable missing from the TOC raises KeyError (default-typed and typed variables)')
     lv = norm(loops[0].target) if len(loops) == 1 and isinstance(loops[0].target, ast.Name) else 'var'          # the loop variable, whatever its name
     toc_chk = [n for n in rej if fact_key('self.toc.get_element_by_complete_name(%s.name) is None' % lv, True) in g.fact_keys_at(n) and
